@@ -323,6 +323,10 @@ structure State where
 inductive Label where
   | start (i : Identity) (prio lifetime : Int)   -- a process starts (mandatory peering: pre-paused)
   | keepalive (i : Identity) (lag : Nat)         -- the pinger's `touch()` lands; the record was stamped `lag` ticks ago
+  | keepaliveFail (i : Identity) (w : Bool)      -- the pinger's `touch()` RAISES (an API error that escaped the client's retries):
+                                                 --   `keepalive()` ends; its `finally` withdraws the record (`w`: that PATCH lands;
+                                                 --   else it fails too: logged and ignored); the task's done-callback cancels the
+                                                 --   orchestrator: the operator begins to stop (FAIL-STOP), now without a pinger
   | exit (i : Identity)                          -- graceful, nothing in between: handling stopped, `touch(lifetime=0)` lands, gone
   | exitLost (i : Identity)                      -- graceful, but the withdrawal PATCH fails for good (logged and ignored)
   | exitBegin (i : Identity)                     -- what the code does FIRST on a graceful stop: watchers and peering observer
@@ -379,6 +383,18 @@ def step (u : Int) (s : State) : Label → Option State
     | some o => if o.alive then
         some { s with ver := s.ver + 1, status := s.status.patch i (touchVal u o.prio o.lifetime (s.now - lag)),
                       ops := updOp s.ops i { o with nextKA := some (s.now + (o.lifetime * u - marginT u o.lifetime)) } }
+      else none
+    | none => none
+  | .keepaliveFail i w =>
+    -- what the code does when a keep-alive fails for good: NOT "renew on the next round" (a whole period later the record is
+    -- dead for every lifetime > 20 s: `swallowed_keepalive_two_active_witness`) but fail-stop. `keepalive()`'s `finally` runs
+    -- first (the withdrawal, if the API takes it), then the orchestrator stops the watchers and the observer (as `exitBegin`:
+    -- queues deplete, handlers in flight finish - finding F11: the record is already gone then), `exitEnd` is the end of it.
+    -- (Over-approximation: `keepalive i` stays enabled for an `alive` entry; in the code the pinger is gone for good.)
+    match s.ops i with
+    | some o => if o.alive then
+        some { s with ver := if w then s.ver + 1 else s.ver, status := if w then s.status.erase i else s.status,
+                      ops := updOp s.ops i { o with exiting := true, sleeping := false, nextKA := none } }
       else none
     | none => none
   | .exit i =>
@@ -468,6 +484,23 @@ def run (u : Int) : State → List Label → Option State
   | s, [] => some s
   | s, l :: ls => match step u s l with | some s' => run u s' ls | none => none
 
+/-- NAMED VARIANT (seeded change C13e, NOT what the code does): `keepalive()` wraps its regular `touch()` in
+    `try/except APIError: log "will retry on the next round"` - the failed keep-alive changes nothing, the loop sleeps its
+    usual period (`nextKA` moves on by the longest sleep), the operator stays as it is: running, not stopping. Every other
+    label as in `step`. `swallowed_keepalive_two_active_witness` is what that costs. -/
+def stepSwallow (u : Int) (s : State) : Label → Option State
+  | .keepaliveFail i _ =>
+    match s.ops i with
+    | some o => if o.alive then
+        some { s with ops := updOp s.ops i { o with nextKA := some (s.now + (o.lifetime * u - marginT u o.lifetime)) } }
+      else none
+    | none => none
+  | l => step u s l
+
+def runSwallow (u : Int) : State → List Label → Option State
+  | s, [] => some s
+  | s, l :: ls => match stepSwallow u s l with | some s' => runSwallow u s' ls | none => none
+
 inductive Reachable (u : Int) : State → Prop where
   | init : Reachable u init
   | step {s s' : State} (l : Label) : Reachable u s → step u s l = some s' → Reachable u s'
@@ -503,6 +536,7 @@ def ExactlyTop (s : State) : Prop :=
 def Allowed (u B : Int) (s : State) : Label → Prop
   | .start _ _ L => 1 ≤ L ∧ 2 * B < marginT u L
   | .keepalive _ lag => (lag : Int) ≤ B
+  | .keepaliveFail _ _ => False      -- no keep-alive fails in a timely run (an API failure is outside the latency guard)
   | .wake _ lag => (lag : Int) ≤ B
   | .tick d => ∀ i o k, s.ops i = some o → o.alive = true → o.nextKA = some k → s.now + d ≤ k + B
   | .expire j => ∀ i o k, s.ops i = some o → o.alive = true → o.nextKA = some k →
